@@ -4,6 +4,8 @@ from __future__ import annotations
 
 from typing import Any
 
+from hypothesis import strategies as st
+
 from vf import gen_ttp, oracle_ttp
 from vf.core import Ctx, HarnessError, require, sut
 
@@ -23,6 +25,10 @@ META = {
             "GamePlan of an instance with generated distance matrix, names "
             "and setting, odd n (rejected by the Instance constructor) "
             "through map_games into a plain array of the plan storage type. "
+            "(4) 'decode_edge': a few orderings for 126, 128 and 130 teams "
+            "(one round, > 8000 games) decoded through the public "
+            "constructor - the team counts around the int8/int16 edge of "
+            "the plan storage type. "
             "A decoding is non-trivial when at least one game had to be "
             "dropped or n is odd; distinct = distinct (n, rounds, ordering)",
     "assumptions": [
@@ -200,8 +206,26 @@ def check_decode(ctx: Ctx, case: dict) -> None:
                  labels=labels)
 
 
+# team counts next to the point where the game-plan storage type (range
+# -n..n) changes from int8 to int16; the constructor only accepts even n
+EDGE_TEAMS = (126, 128, 130)
+
+
+@st.composite
+def edge_cases(draw: Any) -> dict:
+    """Decodings through the public constructor for 126/128/130 teams (one
+    round, 8001..8385 games): the plan must be able to hold +/-n."""
+    n = draw(st.sampled_from(EDGE_TEAMS))
+    rounds = 1
+    return {"n": n, "rounds": rounds,
+            "shuffle": draw(gen_ttp.index_shuffles(
+                gen_ttp.n_games(n, rounds))),
+            "garbage": draw(st.integers(-n, n)),
+            "inst": _plain_instance(n, rounds)}
+
+
 SUBS = {"blueprint": check_blueprint, "decode_all": check_decode_all,
-        "decode": check_decode}
+        "decode": check_decode, "decode_edge": check_decode}
 
 
 def run(ctx: Ctx) -> None:
@@ -223,3 +247,5 @@ def run(ctx: Ctx) -> None:
                 **st)
     ctx.given("decode", gen_ttp.decode_cases(), check_decode,
               quick=2400, thorough=16 * 10000)
+    ctx.given("decode_edge", edge_cases(), check_decode, quick=8,
+              thorough=16 * 6, shrink=False)
